@@ -612,7 +612,44 @@ func emitLockSkel(repo, outDir string) error {
 		seen[key] = true
 		entries = append(entries, fmt.Sprintf("(%s, %s)", coqStr(key), dn))
 	}
-	fmt.Fprintf(&sb, "Definition lock_skels : list (string * stmt) :=\n  [%s].\n", strings.Join(entries, ";\n   "))
+	fmt.Fprintf(&sb, "Definition lock_skels : list (string * stmt) :=\n  [%s].\n\n", strings.Join(entries, ";\n   "))
+	// exported methods: the entry points other goroutines can call
+	var exported, unexported []string
+	for _, m := range ms {
+		if ast.IsExported(m.name) {
+			exported = append(exported, m.name)
+		} else {
+			unexported = append(unexported, m.name)
+		}
+	}
+	fmt.Fprintf(&sb, "(* exported methods = entry points callable from any goroutine *)\nDefinition lock_exported : list string := %s.\n\n", strList(exported))
+	// unexported (lock-free) helpers must only be called from methods of the same receiver types:
+	// list every other call site `x.<helper>(` in the package (by name; no type information)
+	isHelper := map[string]bool{}
+	for _, u := range unexported {
+		isHelper[u] = true
+	}
+	var outside []string
+	for _, af := range files {
+		for _, d := range af.Decls {
+			fd, ok := d.(*ast.FuncDecl)
+			if !ok || fd.Body == nil {
+				continue
+			}
+			if typ, _ := recvTypeName(fd); isLockType[typ] {
+				continue
+			}
+			ast.Inspect(fd.Body, func(n ast.Node) bool {
+				if c, ok := n.(*ast.CallExpr); ok {
+					if se, ok := c.Fun.(*ast.SelectorExpr); ok && isHelper[se.Sel.Name] {
+						outside = append(outside, funcName(fd)+" calls "+se.Sel.Name)
+					}
+				}
+				return true
+			})
+		}
+	}
+	fmt.Fprintf(&sb, "(* calls of the unexported helpers from functions that are not methods of the two types *)\nDefinition lock_helper_calls_outside : list string := %s.\n", strList(outside))
 	writeIfChanged(filepath.Join(outDir, "LockSkel.v"), sb.String())
 	return nil
 }
